@@ -71,6 +71,8 @@ def gen_case(rng, oversize=False):
         r = rng.random()
         fate = "deliver" if r < 0.7 else "lose" if r < 0.8 else \
             "dup" if r < 0.9 else "slow"
+        if rng.random() < 0.04:
+            fate = "senderr"
         frames_pol.append(dict(
             fate=fate, delay=rng.choice([0.0001, 0.0003, 0.001, 0.004]),
             wkc0=[rng.random() < 0.15 for _ in range(16)]))
@@ -154,6 +156,9 @@ def run_history(case):
                     ids.append((rid, len(d.data), wkc, resp))
                 log["frames"].append(dict(n=n, ids=ids, fate=pol["fate"],
                                           t=loop.time()))
+                if pol["fate"] == "senderr":
+                    # the frame cannot be put on the wire (link down)
+                    raise OSError(100, "Network is down")
                 if pol["fate"] == "lose":
                     return
                 if struct.unpack("<H", dgs[0].data)[0] != ec.ethertype:
@@ -322,7 +327,11 @@ def check_history(case, log, res):
             if r["cancel"]:
                 continue
             return ("unexplained:spurious-cancel", f"{rid:#x} cancelled")
-        if fate == "lose":
+        if fate == "senderr":
+            # the requests of a frame that could not be sent fail; nobody
+            # else is affected
+            want = "exception"
+        elif fate == "lose":
             want = "pending"
         elif wkc == 0:
             want = "error"
